@@ -9,23 +9,23 @@ use crate::runner::{Ctx, Failure, PropDef, Verdict};
 use crate::simnet::app::*;
 use crate::simnet::exec::{shared, Exec, RunEnd, Shared, Spawner, Style};
 use crate::simnet::peer::{self, PeerOp, RawPeer};
-use crate::simnet::{Net, Side};
+use crate::simnet::{Net, Side, UNLIMITED};
 use crate::tape::{prf_bytes, prf_cells, Tape};
 
 pub static PROP: PropDef = PropDef {
     id: "C07",
     rule: "case = role x 2..4 concurrent requests, any subset faulty with exactly one of {RESET(any code) at any byte offset, STOP_SENDING(code) on the other direction at any moment, validly encoded but malformed message, \
-           section over the limit, FIN before HEADERS, stream opened and abandoned} (the last two only towards a server), the rest healthy with generated bodies; operations of all streams merged in tape order; schedule from the tape. \
+           section over the limit, FIN before HEADERS, stream opened and abandoned} (the last two only towards a server), the rest healthy with generated bodies; operations of all streams merged in tape order; the h3 end's streams start with unlimited / zero / small send credit (grants are scheduler moves), so that faults also arrive while a write is blocked; a raw server acts on a request stream as soon as the client opened it; schedule from the tape. \
            oracle: healthy requests: the application sees exactly its own body bytes and end of message, and the bytes h3 wrote back on that stream parse (reference) to exactly HEADERS + DATA(own echo) and FIN; \
-           faulty requests: the first error reported on that request, if any, is stream-level with the right code (RemoteTerminate{peer's code} / StreamError H3_MESSAGE_ERROR / HeaderTooBig / StreamError H3_REQUEST_INCOMPLETE) and a fault that must surface does; \
+           faulty requests: the first error reported on that request, if any, is stream-level with the right code (RemoteTerminate{peer's code} / StreamError H3_MESSAGE_ERROR / HeaderTooBig / StreamError H3_REQUEST_INCOMPLETE) and a fault that must surface does (a STOP_SENDING because of which the transport refused one of h3's writes must have been reported by the end of the run); \
            connection: zero close calls, the driver never reports an error, every announced request is accepted. non-trivial = >= 1 faulty and >= 1 healthy request whose operations interleave; distinct by (scenario, schedule)",
     assumptions: &["simulated transport, see C01", "a STOP_SENDING that arrives after the endpoint finished writing is not observable: then no error is expected"],
     tape_len: 260,
-    random_cases: |t| t.pick(30_000, 1_200_000),
+    random_cases: |t| t.pick(120_000, 6_000_000),
     run_tape,
     exhaustive: Some(exhaustive),
     run_direct: Some(run_direct),
-    min_classes: &[("nontrivial", 5000), ("fault_reset", 3000), ("fault_stop", 3000), ("fault_malformed", 2000), ("fault_oversized", 2000), ("fault_fin_before_headers", 1000), ("fault_abandoned", 1000), ("role_client", 5000), ("role_server", 5000), ("healthy_verified", 20000)],
+    min_classes: &[("nontrivial", 5000), ("fault_reset", 3000), ("fault_stop", 3000), ("stop_hit_a_write", 1000), ("fault_malformed", 2000), ("fault_oversized", 2000), ("fault_fin_before_headers", 1000), ("fault_abandoned", 1000), ("role_client", 5000), ("role_server", 5000), ("healthy_verified", 20000)],
     extra: None,
 };
 
@@ -52,6 +52,8 @@ pub struct Scn {
     pub server: bool,
     pub reqs: Vec<Req>,
     pub style: Style,
+    /// send credit every stream of the h3 end starts with (further credit is granted by scheduler moves)
+    pub credit: u64,
 }
 
 const LIMIT: u64 = 400;
@@ -284,7 +286,7 @@ fn peer_message(server_role: bool, k: usize, r: &Req) -> Vec<u8> {
 }
 
 fn scn_json(s: &Scn) -> Value {
-    json!({"role": if s.server { "server" } else { "client" }, "style": format!("{:?}", s.style), "reqs": s.reqs.iter().map(|r| format!("{:?} body={} pieces={}", r.fault, r.body_len, r.pieces)).collect::<Vec<_>>()})
+    json!({"role": if s.server { "server" } else { "client" }, "style": format!("{:?}", s.style), "credit": if s.credit == UNLIMITED { -1 } else { s.credit as i64 }, "reqs": s.reqs.iter().map(|r| format!("{:?} body={} pieces={}", r.fault, r.body_len, r.pieces)).collect::<Vec<_>>()})
 }
 
 pub fn run_scn(s: &Scn, merge: &mut Tape, sched: &mut Tape, ctx: &mut Ctx) -> Verdict {
@@ -294,6 +296,7 @@ pub fn run_scn(s: &Scn, merge: &mut Tape, sched: &mut Tape, ctx: &mut Ctx) -> Ve
     let side = if s.server { Side::Server } else { Side::Client };
     let raw = side.other();
     net.set_raw(raw);
+    net.lock().default_credit[side.idx()] = s.credit;
     let o: Shared<Obs> = shared(Obs { reqs: vec![ReqObs::default(); s.reqs.len()], ..Default::default() });
     let mut ex = Exec::new();
     let sp = ex.spawner.clone();
@@ -307,6 +310,11 @@ pub fn run_scn(s: &Scn, merge: &mut Tape, sched: &mut Tape, ctx: &mut Ctx) -> Ve
     for (k, r) in s.reqs.iter().enumerate() {
         let key = k + 1;
         let mut ops: Vec<PeerOp> = Vec::new();
+        if !s.server {
+            // the raw server can act on a request stream as soon as the client has opened it (also in the middle of the
+            // client's upload)
+            ops.push(PeerOp::AdoptOpen(key, 4 * k as u64));
+        }
         let msg = peer_message(s.server, k, r);
         // split the message into a few writes so that other streams' operations can interleave
         let writes: Vec<Vec<u8>> = msg.chunks((msg.len() / 4).max(1)).map(|c| c.to_vec()).collect();
@@ -356,11 +364,6 @@ pub fn run_scn(s: &Scn, merge: &mut Tape, sched: &mut Tape, ctx: &mut Ctx) -> Ve
         for k in 0..s.reqs.len() {
             ops.push(PeerOp::OpenBidi(k + 1));
         }
-    } else {
-        ops.push(PeerOp::Barrier);
-        for k in 0..s.reqs.len() {
-            ops.push(PeerOp::Adopt(k + 1, 4 * k as u64));
-        }
     }
     let mut interleaved = false;
     let mut last: Option<usize> = None;
@@ -381,6 +384,7 @@ pub fn run_scn(s: &Scn, merge: &mut Tape, sched: &mut Tape, ctx: &mut Ctx) -> Ve
         interleaved = true;
     }
     let mut peer = RawPeer::new(raw, ops);
+    peer.net = Some(net.clone());
     let end = ex.run(&net, &mut peer, sched, s.style, 400_000);
     let obs = o.borrow().clone();
     let closes = net.close_calls(side);
@@ -443,9 +447,16 @@ pub fn run_scn(s: &Scn, merge: &mut Tape, sched: &mut Tape, ctx: &mut Ctx) -> Ve
                 ctx.class("fault_reset");
             }
             Fault::Stop { code, .. } => {
+                // did the transport refuse one of h3's data writes on that stream because of the STOP_SENDING?
+                let refused = net.lock().pipes.get(&(stream, side)).map(|p| p.stop_refusals).unwrap_or(0);
                 match &ro.first_error {
-                    None => ctx.class("stop_unobservable"),
-                    Some((_, ErrInfo::RemoteTerminate { code: c })) if *c == code => {}
+                    None if refused == 0 => ctx.class("stop_unobservable"),
+                    None => return fail(format!("request {k}: the transport refused {refused} write(s) because of STOP_SENDING({code:#x}), but no call on that request reported it")),
+                    Some((_, ErrInfo::RemoteTerminate { code: c })) if *c == code => {
+                        if refused > 0 {
+                            ctx.class("stop_hit_a_write");
+                        }
+                    }
                     other => return fail(format!("request {k} got STOP_SENDING({code:#x}); first error: {other:?}")),
                 }
                 // the other direction is unaffected: everything the peer sent was received
@@ -527,15 +538,22 @@ fn gen(t: &mut Tape) -> Scn {
         let i = t.pick(n);
         reqs[i].fault = gen_fault(t, server, reqs[i].body_len);
     }
-    Scn { server, reqs, style: [Style::Eager, Style::Tiny, Style::Random][t.pick(3)] }
+    let style = [Style::Eager, Style::Tiny, Style::Random][t.pick(3)];
+    let credit = match t.pick(6) {
+        0 | 1 | 2 => UNLIMITED,
+        3 => 0,
+        4 => t.int(1, 16),
+        _ => t.int(1, 3000),
+    };
+    Scn { server, reqs, style, credit }
 }
 
 fn exhaustive(ctx: &mut Ctx, shard: usize, nshards: usize) -> Verdict {
     // every (fault kind x victim subset) for 2..3 requests, both roles
-    let faults_server = [Fault::Reset { code: 0x10c, offset: 0 }, Fault::Reset { code: 0x77, offset: 5 }, Fault::Reset { code: 0x10c, offset: 40 }, Fault::Reset { code: 0x10c, offset: 100_000 }, Fault::Stop { code: 0x10c, after_ops: 0 }, Fault::Stop { code: 0x99, after_ops: 2 }, Fault::Stop { code: 0x10c, after_ops: 9 }, Fault::Malformed, Fault::Oversized, Fault::FinBeforeHeaders, Fault::Abandoned];
+    let faults_server = [Fault::Reset { code: 0x10c, offset: 0 }, Fault::Reset { code: 0x77, offset: 5 }, Fault::Reset { code: 0x10c, offset: 40 }, Fault::Reset { code: 0x10c, offset: 100_000 }, Fault::Stop { code: 0x10c, after_ops: 0 }, Fault::Stop { code: 0x99, after_ops: 2 }, Fault::Stop { code: 0x10c, after_ops: 9 }, Fault::Stop { code: 0x100, after_ops: 1 }, Fault::Reset { code: 0x100, offset: 30 }, Fault::Malformed, Fault::Oversized, Fault::FinBeforeHeaders, Fault::Abandoned];
     let mut idx = 0usize;
     for server in [true, false] {
-        let faults: &[Fault] = if server { &faults_server } else { &faults_server[..9] };
+        let faults: &[Fault] = if server { &faults_server } else { &faults_server[..11] };
         for n in 2..=3usize {
             for subset in 1..(1u32 << n) {
                 for f in faults {
@@ -550,10 +568,14 @@ fn exhaustive(ctx: &mut Ctx, shard: usize, nshards: usize) -> Verdict {
                             let (a, b) = cells.split_at(40);
                             let mut merge = Tape::new(a);
                             let mut sched = Tape::new(if style == Style::Random { b } else { &[] });
-                            run_scn(&Scn { server, reqs: reqs.clone(), style }, &mut merge, &mut sched, ctx).map_err(|mut e| {
-                                e.direct = Some(json!({"server": server, "style": format!("{style:?}"), "cells": cells, "reqs": reqs.iter().map(req_json).collect::<Vec<_>>(), "decoded": e.case}));
-                                e
-                            })?;
+                            for credit in [UNLIMITED, 5] {
+                                let mut merge = Tape::new(a);
+                                let mut sched = Tape::new(if style == Style::Random { b } else { &[] });
+                                run_scn(&Scn { server, reqs: reqs.clone(), style, credit }, &mut merge, &mut sched, ctx).map_err(|mut e| {
+                                    e.direct = Some(json!({"server": server, "style": format!("{style:?}"), "credit": credit.to_string(), "cells": cells, "reqs": reqs.iter().map(req_json).collect::<Vec<_>>(), "decoded": e.case}));
+                                    e
+                                })?;
+                            }
                         }
                     }
                 }
@@ -561,7 +583,7 @@ fn exhaustive(ctx: &mut Ctx, shard: usize, nshards: usize) -> Verdict {
         }
     }
     if shard == 0 {
-        ctx.subspace("every (fault kind x victim subset) for 2..3 requests x 3 body sizes x 3 styles, both roles", idx as u64 * 3);
+        ctx.subspace("every (fault kind x victim subset) for 2..3 requests x 3 body sizes x 3 styles x send credit unlimited / 5 bytes, both roles", idx as u64 * 6);
     }
     Ok(())
 }
@@ -620,5 +642,6 @@ fn run_direct(d: &Value, ctx: &mut Ctx) -> Verdict {
     let (a, b) = cells.split_at(40.min(cells.len()));
     let mut merge = Tape::new(a);
     let mut sched = Tape::new(if style == Style::Random { b } else { &[] });
-    run_scn(&Scn { server: d["server"].as_bool().unwrap_or(true), reqs, style }, &mut merge, &mut sched, ctx)
+    let credit = d["credit"].as_str().and_then(|s| s.parse().ok()).unwrap_or(UNLIMITED);
+    run_scn(&Scn { server: d["server"].as_bool().unwrap_or(true), reqs, style, credit }, &mut merge, &mut sched, ctx)
 }
